@@ -152,6 +152,10 @@ pub fn generate(ctx: &mut Ctx) {
     for dt in gen::dst_edge_datetimes() {
         ctx.case("wf:dst", &vx::show(&Value::DateTime(dt)));
     }
+    // zone offsets with seconds (local mean time): the written offset has minute precision
+    for dt in gen::lmt_datetimes() {
+        ctx.case("wf:lmt", &vx::show(&Value::DateTime(dt)));
+    }
     let total = ctx.n(4000, 200_000);
     for i in 0..total {
         let mut rng = ctx.rng.fork();
